@@ -19,8 +19,8 @@ EXTENDS BufGen
 
 CONSTANT DesignMutation   \* "none" | "chain_vec_prefix" (the code before fix 3eb1026) | "take_limit" (seeded C09-A)
 
-VARIABLES dt, badlaws, nops
-dvars == <<stack, phase, tree0, tree, ops, nleaf, dt, badlaws, nops>>
+VARIABLES dt, badlaws, nops, pred
+dvars == <<stack, phase, tree0, tree, ops, nleaf, dt, badlaws, nops, pred>>
 
 \* ---------------------------------------------------------------- leaves
 RECURSIVE SplitBy(_, _)
@@ -153,12 +153,17 @@ DGet(t, m, n) ==
              ELSE [out |-> "ok", res |-> [Res0 EXCEPT !.k = IF try THEN "ok" ELSE "none", !.v = Decode(m, r.v)], t |-> r.t]
 
 \* ---------------------------------------------------------------- one design step
-Check(e) == LET R == BufStep(Proj(dt), e) IN badlaws' = badlaws \cup R.V
+Check(e) == LET R == BufStep(Proj(dt), e) IN
+            /\ badlaws' = badlaws \cup R.V
+            \* program and predicted observations (bindings G and D)
+            /\ ops' = Append(ops, OpRec(e.op, e.m, e.n, <<>>, <<>>, <<>>, 0, NoSrc))
+            /\ pred' = Append(pred, [out |-> e.out, k |-> e.res.k, n |-> e.res.n, req |-> e.res.req, avail |-> e.res.avail,
+                                     v |-> e.res.v, vv |-> e.res.vv, tree |-> e.tree])
 
 DStart ==
   /\ phase = "build" /\ Len(stack) = 1
   /\ phase' = "ops" /\ tree0' = stack[1] /\ tree' = stack[1] /\ dt' = stack[1]
-  /\ UNCHANGED <<stack, ops, nleaf, badlaws, nops>>
+  /\ UNCHANGED <<stack, ops, nleaf, badlaws, nops, pred>>
 
 DOp ==
   /\ phase = "ops" /\ nops < MaxOps /\ badlaws = {}
@@ -194,14 +199,18 @@ DOp ==
              /\ Check(Ev("get", m, n, r.out, r.res, r.t))
              /\ dt' = r.t
   /\ nops' = nops + 1
-  /\ UNCHANGED <<stack, phase, tree0, tree, ops, nleaf>>
+  /\ UNCHANGED <<stack, phase, tree0, tree, nleaf>>
 
-DInit == Init /\ dt = [k |-> "none"] /\ badlaws = {} /\ nops = 0
-DNext == \/ (PushLeaf /\ UNCHANGED <<dt, badlaws, nops>>)
-         \/ (MkChain /\ UNCHANGED <<dt, badlaws, nops>>)
-         \/ (MkLimit /\ UNCHANGED <<dt, badlaws, nops>>)
-         \/ (MkWrap /\ UNCHANGED <<dt, badlaws, nops>>)
+DInit == Init /\ dt = [k |-> "none"] /\ badlaws = {} /\ nops = 0 /\ pred = <<>>
+DNext == \/ (PushLeaf /\ UNCHANGED <<dt, badlaws, nops, pred>>)
+         \/ (MkChain /\ UNCHANGED <<dt, badlaws, nops, pred>>)
+         \/ (MkLimit /\ UNCHANGED <<dt, badlaws, nops, pred>>)
+         \/ (MkWrap /\ UNCHANGED <<dt, badlaws, nops, pred>>)
          \/ DStart \/ DOp
+
+\* INVARIANT that never fails: prints finished programs with the design's predictions
+DEmit == (Emit /\ phase = "ops" /\ nops = MaxOps /\ RandomElement(1..SampleK) = 1) =>
+           PrintT(<<"REPLAY", ToJson([side |-> "buf", tree |-> tree0, ops |-> ops, pred |-> pred])>>)
 
 LawsAccept == badlaws = {}
 =============================================================================
